@@ -262,6 +262,12 @@ def run(ctx: Ctx) -> Result:
                     'def 0 { if { div_int xfff6 } else { mod_int xffff80 } } try { div_int xff7f } except { }'):
             try: rt.append((f'non-minimal operand: {src}', P.compile_script(src)))
             except BaseException: pass
+        # empty values: whichever of these spellings the compiler accepts, its output is a well-formed instruction stream
+        for src in ('push x', 'push x true false', 'true if { push x } true', 'push ~ { }', 'push ~ { } true', 'push s""', "push s'' dup", 'push1 d0 x', 'push0 x', 'push2 d0 x',
+                    'read_cache x', 'write_cache x d0', 'def 0 { push x }', 'rcz x', 'val x', 'set_flag x', 'unset_flag x', 'div_int x', 'mod_int x', 'push1 d0 x true',
+                    'if { push x } else { true }', 'try { push x } except { false }', 'loop { push x }', 'read_cache s"" dup', "write_cache s'' d1 true"):
+            try: rt.append((f'empty value: {src}', P.compile_script(src)))
+            except BaseException: pass
         for name, b in builder_outputs(rng):
             if b is None: res.notes.append(name)
             else: rt.append(('builder ' + name, b))
